@@ -642,10 +642,14 @@ struct Transparent {
 
 fn gen_transparent(rng: &mut Rng) -> Transparent {
     let firsts = ['a', 'b', 'c', 'd', 'e', 'f', 'é', '😀'];
-    let n_modes = rng.range(1, 4);
+    // now and then: more than 256 modes (mode numbers beyond one byte), and wide transition lists
+    let many_modes = rng.chance(1, 30);
+    let wide = many_modes || rng.chance(1, 8);
+    let n_modes = if many_modes { rng.range(257, 300) } else { rng.range(1, 4) };
     let pool: Vec<usize> = {
         let by_index = rng.chance(1, 2);
-        let mut v = gen_token_types(rng, 7, by_index);
+        let mut v = gen_token_types(rng, if wide { 30 } else { 7 }, by_index);
+        v.dedup();
         v.sort();
         v
     };
@@ -685,7 +689,7 @@ fn gen_transparent(rng: &mut Rng) -> Transparent {
         }
         // transitions: sorted by token type, 0-3 entries, also for token types the mode does not
         // produce (so that lookups fall between entries)
-        let ntr = rng.below(4);
+        let ntr = if wide { rng.range(4, 16) } else { rng.below(4) };
         let mut tr: Vec<usize> = Vec::new();
         let mut cand = pool.clone();
         rng.shuffle(&mut cand);
@@ -693,7 +697,10 @@ fn gen_transparent(rng: &mut Rng) -> Transparent {
             tr.push(t);
         }
         tr.sort();
-        let trans: Vec<(usize, usize)> = tr.into_iter().map(|t| (t, rng.below(n_modes))).collect();
+        let trans: Vec<(usize, usize)> = tr
+            .into_iter()
+            .map(|t| (t, if many_modes && rng.chance(1, 2) { rng.range(256, n_modes - 1) } else { rng.below(n_modes) }))
+            .collect();
         modes.push(ModeCfg {
             name: format!("MODE_{}", mi),
             pats,
@@ -722,7 +729,13 @@ fn transparent_next(t: &Transparent, input: &str, pos: &mut usize, mode: &mut us
                         if i >= 1 {
                             st.count("transition_lookup_hits_later_entry");
                         }
+                        if m.trans.len() > 8 {
+                            st.count("switch_taken_from_a_list_of_more_than_8_transitions");
+                        }
                         *mode = m.trans[i].1;
+                        if *mode > 255 {
+                            st.count("switch_into_a_mode_numbered_above_255");
+                        }
                     }
                     None => {
                         st.count("token_without_transition");
@@ -1039,7 +1052,7 @@ pub fn c06(tier: Tier) -> i32 {
         }));
     }
     let report = Report::new(
-        "stream 3: the repository's mode files with their inputs (veryl_modes.json + veryl_input.veryl, parol.json + input_1.par, tests/data/*.json + *.input) re-tokenized in lock step by the real scanner and by a derivative-based reference tokenizer with modes and lookaheads. stream 2: random multi-mode configurations over GENERAL patterns (overlapping languages, lookaheads, token types shared between modes, set_mode mid-stream): every token must be the one the tokenizer rule of the reference semantics gives for the patterns of the model's current mode, and current_mode() must follow the configured transitions. stream 1: random mode graphs (1-4 modes; per mode 1-5 keyword patterns with pairwise distinct first letters so that the expected stream is computable by a 10-line function; token types drawn from a pool shared between modes, incl. values above 65535; 0-3 sorted transitions per mode to existing modes incl. self-loops and entries for token types the mode never produces), 1-3 iterations per scanner with Scanner::set_mode in between, histories of next / peek_n / set_mode / current_mode / mode_name on FindMatches and through WithPositions. Oracle: sequential model (position, mode); every token, every current_mode() reading after every call and every mode_name are compared. Distinct by hash of (configuration, plans).",
+        "stream 3: the repository's mode files with their inputs (veryl_modes.json + veryl_input.veryl, parol.json + input_1.par, tests/data/*.json + *.input) re-tokenized in lock step by the real scanner and by a derivative-based reference tokenizer with modes and lookaheads. stream 2: random multi-mode configurations over GENERAL patterns (overlapping languages, lookaheads, token types shared between modes, set_mode mid-stream): every token must be the one the tokenizer rule of the reference semantics gives for the patterns of the model's current mode, and current_mode() must follow the configured transitions. stream 1: random mode graphs (1-4 modes, one case in 30 with 257-300 modes; one in 8 with 4-16 transitions per mode; per mode 1-5 keyword patterns with pairwise distinct first letters so that the expected stream is computable by a 10-line function; token types drawn from a pool shared between modes, incl. values above 65535; 0-3 sorted transitions per mode to existing modes incl. self-loops and entries for token types the mode never produces), 1-3 iterations per scanner with Scanner::set_mode in between, histories of next / peek_n / set_mode / current_mode / mode_name on FindMatches and through WithPositions. Oracle: sequential model (position, mode); every token, every current_mode() reading after every call and every mode_name are compared. Distinct by hash of (configuration, plans).",
     )
     .floor("switch_taken", 10_000)
     .floor("token_without_transition", 10_000)
@@ -1049,6 +1062,8 @@ pub fn c06(tier: Tier) -> i32 {
     .floor("transition_lookup_falls_between_entries", 1000)
     .floor("scanner_set_mode_before_find_iter", 1000)
     .floor("iterations_through_with_positions", 1000)
+    .floor("switch_taken_from_a_list_of_more_than_8_transitions", 2_000)
+    .floor("switch_into_a_mode_numbered_above_255", 150)
     .floor("cached_sibling_with_other_transitions_built_first", 1000)
     .floor("general_tokens_checked", 20_000)
     .floor("general_switch_to_other_mode", 2_000);
@@ -1283,7 +1298,11 @@ pub fn c12_case(rng: &mut Rng, st: &mut Stats) -> CaseOutcome {
     let inputs: Vec<String> = (0..n_inputs)
         .map(|_| gen_input(rng, &res_refs, &p.letters, 30))
         .collect();
-    let n_iters = rng.range(2, 5);
+    // now and then a crowd of iterators (a fixed-size pool of shared scratch state would show)
+    let n_iters = if rng.chance(1, 25) && !cfg!(miri) { rng.range(9, 70) } else { rng.range(2, 5) };
+    if n_iters > 8 {
+        st.count("interleavings_with_more_than_8_iterators");
+    }
     let hp = HistParams {
         max_ops: 25,
         n_modes: cfg.modes.len(),
@@ -1556,9 +1575,10 @@ pub fn c12(tier: Tier) -> i32 {
     let n2 = ctx.scale(10_000, 500_000);
     res.merge(run_cases(&ctx, 2, n2, |rng, _i, st| c12_reuse_case(rng, st)));
     let report = Report::new(
-        "stream 2: one buffer refilled in place with 2-4 equally long contents and scanned by successive iterators of one Scanner (random histories, some ending mid-scan), each compared with its solo replay on a fresh uncached scanner over a separate copy. stream 1: 2-5 iterators over 1-3 inputs created lazily from one Scanner or from two build() results of one configuration (shared cached compilation), random interleavings of all iterator operations (next, peek_n, advance_to, set_offset, set_mode, position, current_mode), early drops, Scanner::set_mode between and during iterations. Oracle: the projection of the interleaved history onto each iterator must equal the solo replay of that projection on a fresh uncached scanner (all outputs compared). Distinct by hash of (configuration, inputs, plans, schedule).",
+        "stream 2: one buffer refilled in place with 2-4 equally long contents and scanned by successive iterators of one Scanner (random histories, some ending mid-scan), each compared with its solo replay on a fresh uncached scanner over a separate copy. stream 1: 2-5 iterators (one case in 25: 9-70) over 1-3 inputs created lazily from one Scanner or from two build() results of one configuration (shared cached compilation), random interleavings of all iterator operations (next, peek_n, advance_to, set_offset, set_mode, position, current_mode), early drops, Scanner::set_mode between and during iterations. Oracle: the projection of the interleaved history onto each iterator must equal the solo replay of that projection on a fresh uncached scanner (all outputs compared). Distinct by hash of (configuration, inputs, plans, schedule).",
     )
     .floor("step_with_two_or_more_live_iterators", 50_000)
+    .floor("interleavings_with_more_than_8_iterators", 200)
     .floor("step_with_live_iterators_in_different_modes", 10_000)
     .floor("iterator_dropped_mid_scan", 2000)
     .floor("scanner_set_mode_during_iterations", 2000)
